@@ -545,6 +545,8 @@ def run(cx, tier='quick'):
         rep.broken.append('expected the Clone struct, enum and union handlers, found %d' % n)
     from .c13 import include_own_scanners
     include_own_scanners(cx, facts, rep, ['::clone::'])
+    from .helpers import check_ident_or_index
+    check_ident_or_index(cx, rep)
     rep.floor('SUM-CLONE', 15)
     rep.assumptions += ['`*self` of a Copy type is a bitwise copy', 'semantics of match / if let / struct expressions']
     rep.not_decided += ['behaviour of user-supplied clone methods']
